@@ -334,6 +334,7 @@ class Check:
             raise ToolFailure("TLC model check %s failed (rc=%d, violated=%s)\n%s" % (name, res.rc, res.violated, res.out[-4000:]))
         self.cov["states"] += res.distinct
         self.cov["transitions"] += res.generated
+        log("MC %s: %d distinct states, %.0fs" % (name[:60], res.distinct, res.wall))
         self.cov["mc_runs"].append({"model": name, "distinct_states": res.distinct, "states_generated": res.generated,
                                     "depth": res.depth, "wall_s": round(res.wall, 1), "complete": res.left == 0})
         cov = res.coverage_actions()
@@ -520,6 +521,7 @@ def conformance(c, exe, programs, spec_dir, module, cfg, tag, meta=None, procs=8
     confirm each rejection by re-running its program alone, report.  `known(program, execution, line)`
     may return a known-finding description.  Returns number of validated executions."""
     wd = os.path.join(c.dir, tag)
+    t_start = time.time()
     execs, crashes = run_programs(exe, programs, wd, tag=tag, procs=procs, timeout=run_timeout, env=env, extra_args=extra_args)
     idx = [i for i, x in enumerate(execs) if x is not None]
     for (i, rc, tail) in crashes:
@@ -537,6 +539,7 @@ def conformance(c, exe, programs, spec_dir, module, cfg, tag, meta=None, procs=8
             raise ToolFailure("driver crash on program %d did not repeat (rc=%d): %s" % (i, rc, tail[-500:]))
     crashed = set(i for (i, _, _) in crashes)
     good = [i for i in idx if i not in crashed]
+    t_run = time.time()
     rej = validate_executions(spec_dir, module, cfg, [execs[i] for i in good], wd, tag=tag + "tv", shards=shards, timeout=tv_timeout, env=env)
     for (j, line) in rej:
         i = good[j]
@@ -557,6 +560,7 @@ def conformance(c, exe, programs, spec_dir, module, cfg, tag, meta=None, procs=8
         ln = rej2[0][1]
         bad = evs[ln - 1] if 0 < ln <= len(evs) else None
         c.violation("%s cannot explain event %d of the execution: %s" % (module, ln, json.dumps(bad)[:300]), path)
+    log("conformance %s: %d programs, run %.0fs, validate %.0fs, %d rejected" % (tag, len(programs), t_run - t_start, time.time() - t_run, len(rej)))
     for i in good:
         nt = nontrivial(execs[i]) if nontrivial else len(execs[i]) >= 3
         c.count_case(programs[i].encode(), nt)
